@@ -40,8 +40,9 @@ class Sched:
     """one execution"""
     current = None   # the Sched in force (module-level singleton for the patched classes)
 
-    def __init__(self, chooser, max_steps=20000, trace=True):
+    def __init__(self, chooser, max_steps=20000, trace=True, yield_filter=None):
         self.chooser = chooser
+        self.yield_filter = yield_filter   # label -> bool; False: perform the primitive without yielding
         self.max_steps = max_steps
         self.threads = []           # DThreadState in creation order
         self.by_ident = {}
@@ -98,6 +99,8 @@ class Sched:
             return None     # unmanaged thread (e.g. the pytest main thread during set-up): run straight through
         if self.aborting:
             raise Abort()
+        if self.yield_filter is not None and not self.yield_filter(label):
+            return None
         st.pending = (label, enabled, wake)
         self.main_sem.release()
         st.sem.acquire()
@@ -215,7 +218,7 @@ class DQueue(queue.Queue):
             cur() and cur().record(st, "get", "empty")
             raise queue.Empty
         item = self._get()
-        cur() and cur().record(st, "get", "ok")
+        cur() and cur().record(st, "get", item if hasattr(item, "priority") else "ok")
         return item
 
     def get_nowait(self):
@@ -394,6 +397,9 @@ class DThread:
             nm = "timer%d" % sum(1 for t in s.threads if t.name.startswith("timer"))
         elif nm is None:
             nm = "T%d" % len(s.threads)
+        nm = str(nm)
+        if any(t.name == nm for t in s.threads):
+            nm = "%s#%d" % (nm, sum(1 for t in s.threads if t.name.split("#")[0] == nm))
         self._st = s.spawn(self._target, self._args, self._kwargs, name=str(nm))
         s.yield_point("thread.start")
 
